@@ -619,3 +619,173 @@ func onlyPrefix(f func(r *Run, fn *ssa.Function, cr caseResult) string, prefix s
 		return strings.Join(keep, "|")
 	}
 }
+
+func ruleCHParseSites3(r *Run) {
+	tt := [2]string{lexerPkg, "TokenType"}
+	sites := []*chSite{
+		{Rule: "CH-MAP", Rel: logqlPkg, Recv: "*parser", Fn: "parseLabelsAndMatchers", TagType: tt, TagConst: "Eq",
+			Outcome:  dropAtom(outCalls("parseLabelMatcher", "parseIdent"), "error"),
+			Expected: tokOp("Eq", "parseLabelMatcher", "NotEq", "parseLabelMatcher", "Re", "parseLabelMatcher", "NotRe", "parseLabelMatcher"),
+			Other:    "parseIdent",
+			Claim:    "in drop/keep an identifier followed by a matcher operator is parsed as a matcher, otherwise as a label name"},
+		{Rule: "CH-MAP", Rel: logqlPkg, Recv: "*parser", Fn: "parseGrouping", TagType: tt, TagConst: "Without",
+			Outcome:  outFieldConst("", "", "Without", "Grouping"),
+			Expected: map[string]string{"By": "unset", "Without": "true"},
+			Other:    "error",
+			Claim:    "`without` sets Grouping.Without, `by` leaves it false"},
+	}
+	for _, s := range sites {
+		runCHSite(r, s)
+	}
+	// literal-kind admissibility in parseLabelPredicate
+	p := r.P
+	fn := p.Method(logqlPkg, "parser", "parseLabelPredicate")
+	T := p.NamedType(lexerPkg, "TokenType")
+	if fn == nil || T == nil {
+		return
+	}
+	consts := enumConstants(T)
+	lead := pickTag(fn, T, consts["OpenParen"])
+	opTag := pickTag(fn, T, consts["CmpEq"])
+	litTag := pickTag(fn, T, consts["String"])
+	if lead == nil || opTag == nil || litTag == nil || opTag == litTag {
+		r.Ob("CH-MAP", "logql.(*parser).parseLabelPredicate literal kinds", "operator/literal admissibility").Undecide(r.pos(fn.Pos()), "dispatch values not identified")
+		return
+	}
+	admit := map[string]map[string]bool{
+		"String":   set("Eq", "NotEq", "Re", "NotRe"),
+		"Number":   set("CmpEq", "NotEq", "Lt", "Lte", "Gt", "Gte"),
+		"Duration": set("CmpEq", "NotEq", "Lt", "Lte", "Gt", "Gte"),
+		"Bytes":    set("CmpEq", "NotEq", "Lt", "Lte", "Gt", "Gte"),
+		"IP":       set("CmpEq", "NotEq"),
+	}
+	structOf := map[string]string{"String": "LabelMatcher", "Number": "NumberFilter", "Duration": "DurationFilter", "Bytes": "BytesFilter", "IP": "IPFilter"}
+	ops := []string{"Eq", "CmpEq", "NotEq", "Re", "NotRe", "Gt", "Gte", "Lt", "Lte"}
+	for _, lit := range []string{"String", "Number", "Duration", "Bytes", "IP"} {
+		o := r.Ob("CH-MAP", "logql.(*parser).parseLabelPredicate["+lit+" literal]", "a "+lit+" literal admits exactly the operators LogQL allows for it and builds a "+structOf[lit])
+		bad := false
+		for _, opn := range ops {
+			assume := map[ssa.Value]constant.Value{}
+			for tg, cn := range map[ssa.Value]string{lead: "Ident", opTag: opn, litTag: lit} {
+				for _, t := range equivLoads(fn, tg) {
+					assume[t] = consts[cn]
+				}
+			}
+			w := &feWalker{Fn: fn, Assume: assume, MaxPath: 20000}
+			built := map[string]bool{}
+			succ := false
+			for _, e := range w.Run() {
+				if e.Cut {
+					continue
+				}
+				if isErr, known := endReturnsError(e); known && isErr {
+					continue
+				}
+				succ = true
+				for _, b := range e.State.trail {
+					for _, in := range b.Instrs {
+						if mi, ok := in.(*ssa.MakeInterface); ok && typeKey(mi.Type()) == "LabelPredicate" {
+							built[typeKey(mi.X.Type())] = true
+						}
+					}
+				}
+			}
+			want := admit[lit][opn]
+			if succ != want {
+				bad = true
+				o.Fail(r.pos(fn.Pos()), "operator token %s with a %s literal is %s, expected %s", opn, lit, accRej(succ), accRej(want))
+			}
+			if succ && !built[structOf[lit]] {
+				bad = true
+				o.Fail(r.pos(fn.Pos()), "operator token %s with a %s literal builds %v, expected %s", opn, lit, built, structOf[lit])
+			}
+		}
+		if !bad {
+			o.OK("9 operator tokens agree").At(r.pos(fn.Pos()))
+		}
+	}
+}
+
+// ruleParserErrProp: errors inside the parser reach failure exits.
+func ruleParserErrProp(r *Run) {
+	p := r.P
+	pkg := p.SSAPkg(logqlPkg)
+	if pkg == nil {
+		return
+	}
+	n := 0
+	for _, fn := range p.SrcFuncs() {
+		if fn.Pkg == nil || fn.Pkg.Pkg.Path() != modPath+"/"+logqlPkg {
+			continue
+		}
+		res := fn.Signature.Results()
+		if res.Len() == 0 || !isErrorType(res.At(res.Len()-1).Type()) {
+			continue
+		}
+		name := fn.Name()
+		if !(strings.HasPrefix(name, "parse") || name == "Parse" || name == "ParseSelector" || name == "consume" || name == "consumeText") {
+			continue
+		}
+		n++
+		ruleErrProp(r, fn, errPropOpts{})
+	}
+	// closures inside parse functions
+	for _, fn := range p.SrcFuncs() {
+		if fn.Parent() == nil || fn.Parent().Pkg == nil || fn.Parent().Pkg.Pkg.Path() != modPath+"/"+logqlPkg {
+			continue
+		}
+		res := fn.Signature.Results()
+		if res.Len() == 0 || !isErrorType(res.At(res.Len()-1).Type()) {
+			continue
+		}
+		n++
+		ruleErrProp(r, fn, errPropOpts{})
+	}
+	r.count("parser_functions", n)
+	// Parse rejects trailing tokens
+	pf := p.Func(logqlPkg, "Parse")
+	o := r.Ob("ERR-PROP", "logql.Parse trailing tokens", "a query with tokens left after a complete expression is rejected")
+	if pf == nil {
+		o.Fail("-", "function not found")
+		return
+	}
+	T := p.NamedType(lexerPkg, "TokenType")
+	consts := enumConstants(T)
+	tag := pickTag(pf, T, consts["EOF"])
+	if tag == nil {
+		o.Fail(r.pos(pf.Pos()), "Parse never compares the next token with EOF: trailing text would be ignored")
+		return
+	}
+	w := &feWalker{Fn: pf, Assume: map[ssa.Value]constant.Value{tag: consts["Ident"]}}
+	bad := false
+	for _, e := range w.Run() {
+		reached := false
+		for _, b := range e.State.trail {
+			if in, ok := tag.(ssa.Instruction); ok && b == in.Block() {
+				reached = true
+			}
+		}
+		if !reached {
+			continue
+		}
+		if isErr, known := endReturnsError(e); !(known && isErr) {
+			bad = true
+			o.Fail(r.pos(e.Term.Pos()), "with a non-EOF token after the expression Parse does not return an error")
+		}
+	}
+	if !bad {
+		o.OK("next token != EOF -> error").At(r.pos(pf.Pos()))
+	}
+}
+
+func dropAtom(f func(r *Run, fn *ssa.Function, cr caseResult) string, atom string) func(r *Run, fn *ssa.Function, cr caseResult) string {
+	return func(r *Run, fn *ssa.Function, cr caseResult) string {
+		var keep []string
+		for _, a := range strings.Split(f(r, fn, cr), "|") {
+			if a != atom {
+				keep = append(keep, a)
+			}
+		}
+		return strings.Join(keep, "|")
+	}
+}
